@@ -4,6 +4,10 @@ Driver ops for the time slice (C04, C11).
   time civil <days>                       -> "<y> <m> <d>"
   time days <y> <m> <d>                   -> "<days>" | "invalid"
   time year <mtime_s> <off_s> <after_s|n> <mo>:<day>:<sod>,...   -> "<t|n>,<t|n>,..."   (file order)
+  time yearx <mtime_s> <off_s> <after_s|n> <lead> <mo>:<day>:<sod>,... [<cont> <bs>]   -> same; lead = number of lines
+                                          without a timestamp before the first message; the trailing fields are for the
+                                          implementation side (in-process correspondence with the real `SyslogProcessor`,
+                                          harness c_year.rs)
   time norm / time parse                  -> see `S4V.Drv.TimeNorm` (added by the DtParse part)
 -/
 import S4V.Model.Wire
@@ -37,6 +41,16 @@ def stepYear : List String → String
     | _, _, _, _ => "bad-op"
   | _ => "bad-op"
 
+def stepYearX : List String → String
+  | mt :: off :: after :: lead :: msgs :: _impl =>
+    match parseInt? mt, parseInt? off, optN after, lead.toNat?,
+        (if msgs = "-" then some [] else (msgs.splitOn ",").mapM parseMsg) with
+    | some mt, some off, some after, some lead, some ms =>
+      let r := Year.processMissingYearL (decide (0 < lead)) off (Year.yearOfInstant off mt) ms after
+      if r.isEmpty then "-" else String.intercalate "," (r.map showOpt)
+    | _, _, _, _, _ => "bad-op"
+  | _ => "bad-op"
+
 def stepCal : List String → Option String
   | ["civil", z] =>
     some <| match parseInt? z with
@@ -47,6 +61,7 @@ def stepCal : List String → Option String
     | some y, some m, some d => if Time.validDate y m d then toString (Time.daysFromCivil y m d) else "invalid"
     | _, _, _ => "bad-op"
   | "year" :: rest => some (stepYear rest)
+  | "yearx" :: rest => some (stepYearX rest)
   | _ => none
 
 /-! `time norm <row> <hex line> <fill year|n> <off s> <group>=<hex> …` -> instant ns | none
